@@ -3,7 +3,9 @@
 no demonstration): the worktree is brought to /repo's HEAD with the seeded patch on top, the checks
 run with VERIF_REPO=<worktree>, and the verdicts are stored in seeded/<name>/meta.json under
 what_we_ran.rechecked (the machinery has changed since the change was first kept).
-usage: recheck_seed.py <name> <worktree> <check id> [more]"""
+usage: recheck_seed.py <name> <worktree> <check id> [more]
+If <worktree> does not exist it is created as a scratch git worktree of /repo (outside /repo and
+/verif) and removed again afterwards."""
 import hashlib, json, os, shutil, subprocess, sys
 name, wt = sys.argv[1:3]
 checks = sys.argv[3:]
@@ -17,6 +19,10 @@ mf = os.path.join(dst, "meta.json")
 meta = json.load(open(mf))
 pf = os.path.join(dst, "patch.diff")
 head = run("git -C /repo rev-parse HEAD")[1].strip()
+made = False
+if not os.path.isdir(wt):
+    run("git -C /repo worktree prune")
+    made = run("git -C /repo worktree add -q --detach %s HEAD" % wt)[0] == 0
 run("git -C %s checkout -q -- . " % wt)
 r2 = run("git -C %s checkout -q --detach %s" % (wt, head))
 r3 = run("git -C %s apply %s" % (wt, pf))
@@ -29,6 +35,8 @@ else:
         ls = [l[:300] for l in outc.splitlines()]
         res["checks"][c] = {"exit": rcc, "lines": ([l for l in ls if l.startswith(("VIOLATION", "OK "))] + [l for l in ls if l.startswith("[check] broken")])[:6]}
     shutil.rmtree(os.path.join(V, "build", "alt", hashlib.sha256(os.path.realpath(wt).encode()).hexdigest()[:10]), ignore_errors=True)
+if made:
+    run("git -C /repo worktree remove --force %s" % wt)
 meta.setdefault("what_we_ran", {})["rechecked"] = res
 json.dump(meta, open(mf, "w"), indent=1)
 print(name, "applies" if res["patch_applies"] else "PATCH DOES NOT APPLY", {c: (v["exit"], v["lines"][:1]) for c, v in res["checks"].items()})
